@@ -871,9 +871,9 @@ static std::vector<std::string> const VCLASS_MORE = {"-1e300", "-inf", "2^31", "
 
 static bool is_size_keyword(std::string const &k)
 {
+  // frequencies, strides, widths, lengths, sizes, step counts, boundaries (what ends up as a divisor or a size)
   static const char *pat[] = {"freq", "stride", "width", "length", "size", "pace", "sigma", "steps", "stages",
-                              "factor", "bins", "period", "boundary", "samples", "every", "cutoff", "tolerance",
-                              "expnumer", "expdenom", "walls", "time", "mass", "num", "replicas"};
+                              "samples", "boundar", "every", "factor"};
   for (auto p : pat)
     if (k.find(p) != std::string::npos) return true;
   return false;
@@ -1176,17 +1176,50 @@ static int seq_child(SeqA const &A, std::string const &prelude, std::string cons
   return 0;
 }
 
-// work queue shared by the forked workers (a fixed i % n split leaves one worker with the slow cases)
-static long *g_next = NULL;
+// state shared by the forked workers: work queue (a fixed i % n split leaves one worker with the slow cases),
+// labels already confirmed as hang / slow-but-completing (so the long replay is paid once per label), deadline
+struct Shared {
+  long next;
+  long nconf;
+  double deadline;  // absolute time after which no new case is started (0 = none)
+  long cut;         // cases not started because of the deadline
+  uint64_t conf[16384];
+};
+static Shared *SH = NULL;
 static void queue_reset()
 {
-  if (!g_next) {
-    g_next = (long *) mmap(NULL, 4096, PROT_READ | PROT_WRITE, MAP_SHARED | MAP_ANONYMOUS, -1, 0);
-    if (g_next == MAP_FAILED) harness_error("mmap failed");
+  if (!SH) {
+    SH = (Shared *) mmap(NULL, sizeof(Shared), PROT_READ | PROT_WRITE, MAP_SHARED | MAP_ANONYMOUS, -1, 0);
+    if (SH == MAP_FAILED) harness_error("mmap failed");
+    memset(SH, 0, sizeof(Shared));
   }
-  *g_next = 0;
+  SH->next = 0;
 }
-static long queue_take() { return __atomic_fetch_add(g_next, 1, __ATOMIC_SEQ_CST); }
+static long queue_take(size_t n)
+{
+  long i = __atomic_fetch_add(&SH->next, 1, __ATOMIC_SEQ_CST);
+  if ((size_t) i < n && SH->deadline > 0 && now() > SH->deadline) {
+    __atomic_fetch_add(&SH->cut, 1, __ATOMIC_SEQ_CST);
+    // drain the queue: every remaining index is counted as cut
+    while ((size_t) (i = __atomic_fetch_add(&SH->next, 1, __ATOMIC_SEQ_CST)) < n)
+      __atomic_fetch_add(&SH->cut, 1, __ATOMIC_SEQ_CST);
+    return (long) n;
+  }
+  return i;
+}
+static bool confirmed_has(std::string const &k)
+{
+  uint64_t h = fnv(k);
+  long n = __atomic_load_n(&SH->nconf, __ATOMIC_SEQ_CST);
+  for (long i = 0; i < n && i < 16384; i++)
+    if (__atomic_load_n(&SH->conf[i], __ATOMIC_SEQ_CST) == h) return true;
+  return false;
+}
+static void confirmed_add(std::string const &k)
+{
+  long i = __atomic_fetch_add(&SH->nconf, 1, __ATOMIC_SEQ_CST);
+  if (i < 16384) __atomic_store_n(&SH->conf[i], fnv(k), __ATOMIC_SEQ_CST);
+}
 
 static const char *SEP = " ## ";
 static std::string raw_sig(std::string const &label, std::string const &kind, std::string const &func)
@@ -1439,7 +1472,7 @@ int main(int argc, char **argv)
   }
 
   // ---------------- phase 1 cases ----------------
-  std::vector<Case> cases;
+  std::vector<Case> cases, all_cases;
   for (size_t bi = 0; bi < BASES.size(); bi++) {
     std::vector<int> path;
     enum_tree((int) bi, BASES[bi].tree, path, thorough, cases);
@@ -1538,6 +1571,7 @@ int main(int argc, char **argv)
       if (take) keep.push_back(c);
     }
     total.count("cases_deduplicated_away", (long) (cases.size() - keep.size()));
+    all_cases = cases;
     cases.swap(keep);
   }
 
@@ -1566,7 +1600,7 @@ int main(int argc, char **argv)
       if (chdir(wd.c_str())) harness_error("chdir " + wd);
       std::set<std::string> disc_seen;
       std::map<std::string, int> confirmed;
-      for (size_t i; (i = (size_t) queue_take()) < cs.size();) {
+      for (size_t i; (i = (size_t) queue_take(cs.size())) < cs.size();) {
         Case const &c = cs[i];
         std::string conf = case_config(c);
         reset_workdir(wd);
@@ -1633,6 +1667,19 @@ int main(int argc, char **argv)
           r.violation(raw_sig(lab, o.kind, o.func), detail_json(c, conf, o, NULL));
           continue;
         }
+        if (o.kind == "timeout" || o.kind == "rss-cap") {
+          // the long replay of a hang / of a slow large-value case is paid once per label (object type,
+          // keyword, value class) over all workers
+          if (confirmed_has("slowok|" + lab)) { r.count("slow_with_large_value_completed"); continue; }
+          if (confirmed_has("slowq|" + lab)) { r.count("slow_with_large_value_not_judged_in_quick"); continue; }
+          if (confirmed_has(o.kind + "|" + lab)) {
+            r.count("abnormal_ends");
+            r.count("abnormal_ends_at_confirmed_site_not_replayed");
+            r.seen("outcomes", "abnormal:" + o.kind);
+            r.violation(raw_sig(lab, o.kind, ""), detail_json(c, conf, o, NULL));
+            continue;
+          }
+        }
         reset_workdir(wd);
         Outcome o2 = run_child([&]() { return child_body(conf, false); }, o.kind == "timeout" ? T_RETRY : T_CASE * 2,
                                RSS_CAP_MB);
@@ -1646,6 +1693,7 @@ int main(int argc, char **argv)
           if (large_only) {
             if (!thorough) {
               r.count("slow_with_large_value_not_judged_in_quick");
+              confirmed_add("slowq|" + lab);
               r.notes.push_back("slow with the large value, not judged in the quick tier: " + case_id(c));
               continue;
             }
@@ -1653,6 +1701,7 @@ int main(int argc, char **argv)
             Outcome o3 = run_child([&]() { return child_body(conf, false); }, 10 * T_RETRY, RSS_CAP_MB);
             if (o3.kind == "ok") {
               r.count("slow_with_large_value_completed");
+              confirmed_add("slowok|" + lab);
               r.notes.push_back("slow with the large value but completed in " + std::to_string((int) o3.secs) + " s: " + case_id(c));
               continue;
             }
@@ -1666,6 +1715,7 @@ int main(int argc, char **argv)
         }
         r.count("abnormal_ends");
         r.seen("outcomes", "abnormal:" + o2.kind);
+        if (o2.kind == "timeout" || o2.kind == "rss-cap") confirmed_add(o2.kind + "|" + lab);
         r.violation(raw_sig(lab, o2.kind, o2.func), detail_json(c, conf, o2, &o));
       }
     }, res, 7000);
@@ -1697,8 +1747,51 @@ int main(int argc, char **argv)
     total.notes.push_back("blocks whose keyword registry the library never checks (nested components); registry of the same "
                           "object type taken from the other configurations: " + l);
   }
+  // ---------------- phase 2 cases (thorough): pairs of divisor/size keywords ----------------
+  std::vector<Case> cases2;
+  if (thorough) {
+    static const char *pv[] = {"0", "-1", "1000000"};
+    std::set<std::string> seen;
+    for (size_t bi = 0; bi < BASES.size(); bi++) {
+      // single mutations (value class "0") of size keywords of this base, taken from the phase-1 list
+      std::vector<Mut> sz;
+      for (auto const &c : all_cases)
+        if (c.base == (int) bi && c.muts.size() == 1 && c.muts[0].vclass == "0" && !c.muts[0].remove &&
+            is_size_keyword(c.muts[0].kw) && !BLOCK_KEYS.count(c.muts[0].kw))
+          sz.push_back(c.muts[0]);
+      for (size_t i = 0; i < sz.size(); i++)
+        for (size_t j = i + 1; j < sz.size(); j++) {
+          // once per pair of (object type, keyword)
+          std::string l1 = ctx_label(BASES[bi], sz[i].ctx), l2 = ctx_label(BASES[bi], sz[j].ctx);
+          std::string key = l1 + ":" + sz[i].kw + "|" + l2 + ":" + sz[j].kw;
+          if (!seen.insert(key).second) continue;
+          for (auto a : pv)
+            for (auto b : pv) {
+              Case c;
+              c.base = (int) bi;
+              Mut m1 = sz[i], m2 = sz[j];
+              m1.value = m1.vclass = a;
+              m2.value = m2.vclass = b;
+              c.muts.push_back(m1);
+              c.muts.push_back(m2);
+              cases2.push_back(c);
+            }
+        }
+    }
+  }
   bool exhaustive = true;
-  fprintf(stderr, "bases: %zu, phase-1 cases: %zu (setup %.1fs)\n", BASES.size(), cases.size(), now() - t_start);
+  fprintf(stderr, "bases: %zu, phase-1 cases: %zu, pair cases: %zu (setup %.1fs)\n", BASES.size(), cases.size(),
+          cases2.size(), now() - t_start);
+  // safety net: no new case is started after the tier's wall deadline, no phase after its start deadline
+  queue_reset();
+  double const hard_deadline = t_start + (thorough ? 1500.0 : 420.0);
+  SH->deadline = hard_deadline;
+  auto past_deadline = [&](char const *what) {
+    if (now() < t_start + (thorough ? 1000.0 : 200.0)) return false;
+    exhaustive = false;
+    total.notes.push_back(std::string("deadline: ") + what + " not started");
+    return true;
+  };
   if (getenv("C10_COUNT_ONLY")) {
     std::map<std::string, long> per;
     for (auto const &c : cases) per[ctx_label(BASES[c.base], c.muts[0].ctx)]++;
@@ -1797,52 +1890,9 @@ int main(int argc, char **argv)
   double t2 = now();
   fprintf(stderr, "phase1b: %zu cases in %.1fs\n", cases1b.size(), t2 - t1);
 
-  // ---------------- phase 2 (thorough): pairs of divisor/size keywords ----------------
-  std::vector<Case> cases2;
-  if (thorough) {
-    static const char *pv[] = {"0", "-1", "1000000"};
-    std::set<std::string> seen;
-    for (size_t bi = 0; bi < BASES.size(); bi++) {
-      // single mutations (value class "0") of size keywords of this base, taken from the phase-1 list
-      std::vector<Mut> sz;
-      for (auto const &c : cases)
-        if (c.base == (int) bi && c.muts.size() == 1 && c.muts[0].vclass == "0" && !c.muts[0].remove &&
-            is_size_keyword(c.muts[0].kw) && !BLOCK_KEYS.count(c.muts[0].kw))
-          sz.push_back(c.muts[0]);
-      for (size_t i = 0; i < sz.size(); i++)
-        for (size_t j = i + 1; j < sz.size(); j++) {
-          // once per pair of (object type, keyword); pairs involving a module or colvar keyword once per
-          // set of bias types of the configuration
-          std::string l1 = ctx_label(BASES[bi], sz[i].ctx), l2 = ctx_label(BASES[bi], sz[j].ctx);
-          std::string key = l1 + ":" + sz[i].kw + "|" + l2 + ":" + sz[j].kw;
-          if (l1 == "module" || l1 == "colvar" || l2 == "module" || l2 == "colvar") {
-            std::set<std::string> bset;
-            for (auto const &k : BASES[bi].tree.kids) if (k.block && lower(k.key) != "colvar") bset.insert(lower(k.key));
-            for (auto const &k : bset) key += "+" + k;
-          }
-          if (!seen.insert(key).second) continue;
-          for (auto a : pv)
-            for (auto b : pv) {
-              Case c;
-              c.base = (int) bi;
-              Mut m1 = sz[i], m2 = sz[j];
-              m1.value = m1.vclass = a;
-              m2.value = m2.vclass = b;
-              c.muts.push_back(m1);
-              c.muts.push_back(m2);
-              cases2.push_back(c);
-            }
-        }
-    }
-    if (!run_cases(cases2, "phase2_pairs", total)) return 2;
-    take_notes("DISC");
-    take_notes("REJ");
-  }
   double t3 = now();
-  fprintf(stderr, "phase2: %zu cases in %.1fs\n", cases2.size(), t3 - t2);
-
   // ---------------- phase 3: reject-then-continue sequences ----------------
-  {
+  if (!past_deadline("phase 3 (sequences)")) {
     std::vector<SeqA> As = seqA();
     if (!thorough) As.resize(1);
     // B candidates: every phase-1/1b case whose configuration was rejected with a normal return
@@ -1880,7 +1930,7 @@ int main(int argc, char **argv)
       std::string wd = scratch + "/w" + std::to_string(shard);
       reset_workdir(wd);
       if (chdir(wd.c_str())) harness_error("chdir " + wd);
-      for (size_t q; (q = (size_t) queue_take()) < order.size() * nA;) {
+      for (size_t q; (q = (size_t) queue_take(order.size() * nA)) < order.size() * nA;) {
         size_t i = order[q / nA];
         SeqA const &A = As[q % As.size()];
         Case const &c = bs[i];
@@ -1940,6 +1990,20 @@ int main(int argc, char **argv)
     fprintf(stderr, "phase3: %zu sequences in %.1fs\n", order.size() * nA, now() - t3);
   }
 
+  double t4 = now();
+  // ---------------- phase 2 (thorough): pairs of divisor/size keywords ----------------
+  if (thorough && !past_deadline("phase 2 (pairs)")) {
+    if (!run_cases(cases2, "phase2_pairs", total)) return 2;
+    take_notes("DISC");
+    take_notes("REJ");
+  }
+  double t3b = now();
+  fprintf(stderr, "phase2: %zu cases in %.1fs\n", cases2.size(), t3b - t4);
+
+  if (SH->cut > 0) {
+    exhaustive = false;
+    total.notes.push_back("deadline: " + std::to_string(SH->cut) + " cases were not started");
+  }
   total.notes.push_back("per-case limits: " + std::to_string((int) T_CASE) + " s CPU time of the child (replayed with " +
                         std::to_string((int) T_RETRY) + " s before it is called a hang; wall limit 20x), " + std::to_string(RSS_CAP_MB) +
                         " MB resident (polled by the parent), 1024 MB per single allocation (ASan max_allocation_size_mb; "
